@@ -290,4 +290,55 @@ theorem oracle_substr2 (s : List Char) (a : Int) (hg : -(s.length : Int) ≤ a) 
   rw [e1]
   exact mysql_substr2 s a hg
 
+/-! ### symbolic evaluation of the expressions `STRING_SLICE` builds -/
+
+section evalLemmas
+variable {d : Dialect} {env : Env} {e : Sql} {s : List Char}
+
+theorem sign_dich (a : Int) : (a < 0 ∧ ¬ 0 ≤ a) ∨ (¬ a < 0 ∧ 0 ≤ a) := by omega
+
+theorem eval_indexSql_const (he : eval d env e = .ok (.str s)) (a : Int) :
+    eval d env (indexSql d e (.const a)) = .ok (.int (indexVal d (lengthOf d s) a)) := by
+  by_cases hd : d = .pg
+  · subst hd
+    by_cases h0 : a < 0 <;> by_cases h1 : a < -1 <;>
+      simp [indexSql, indexVal, eval, he, lengthV, arithV, bind, Except.bind, h0, h1] <;> omega
+  · by_cases h0 : a < 0 <;>
+      simp [indexSql, indexVal, eval, hd, h0] <;> omega
+
+theorem eval_indexSql_expr (he : eval d env e = .ok (.str s)) {x : Sql} {a : Int} (hx : eval d env x = .ok (.int a)) :
+    eval d env (indexSql d e (.expr x)) = .ok (.int (indexVal d (lengthOf d s) a)) := by
+  by_cases hd : d = .pg
+  · subst hd
+    rcases sign_dich a with ⟨h0, h0'⟩ | ⟨h0, h0'⟩ <;>
+      simp [indexSql, indexVal, eval, he, hx, lengthV, arithV, cmpV, condV, bind, Except.bind, h0, h0'] <;> omega
+  · rcases sign_dich a with ⟨h0, h0'⟩ | ⟨h0, h0'⟩ <;>
+      simp [indexSql, indexVal, eval, hx, arithV, cmpV, condV, bind, Except.bind, hd, h0, h0']
+
+theorem eval_lenSql_cc (he : eval d env e = .ok (.str s)) (a b : Int) {idx : Sql}
+    (hidx : eval d env idx = .ok (.int (indexVal d (lengthOf d s) a))) :
+    ∃ l, lenSql e (.const a) idx (.const b) = some l ∧ eval d env l = .ok (.int (lenVal d (lengthOf d s) true a b)) := by
+  rcases sign_dich a with ⟨h0, h0'⟩ | ⟨h0, h0'⟩ <;> rcases sign_dich b with ⟨h1, h1'⟩ | ⟨h1, h1'⟩ <;>
+    simp [lenSql, lenVal, maxz, eval, he, hidx, lengthV, arithV, greatestV, bind, Except.bind, h0, h0', h1, h1'] <;> omega
+
+theorem eval_lenSql_ec (he : eval d env e = .ok (.str s)) {x : Sql} {a : Int} (hx : eval d env x = .ok (.int a)) (b : Int) {idx : Sql}
+    (hidx : eval d env idx = .ok (.int (indexVal d (lengthOf d s) a))) :
+    ∃ l, lenSql e (.expr x) idx (.const b) = some l ∧ eval d env l = .ok (.int (lenVal d (lengthOf d s) false a b)) := by
+  rcases sign_dich a with ⟨h0, h0'⟩ | ⟨h0, h0'⟩ <;> rcases sign_dich b with ⟨h1, h1'⟩ | ⟨h1, h1'⟩ <;>
+    simp [lenSql, lenVal, maxz, eval, he, hx, hidx, lengthV, arithV, cmpV, condV, greatestV, bind, Except.bind, h0, h0', h1, h1'] <;> omega
+
+theorem eval_lenSql_ce (he : eval d env e = .ok (.str s)) (a : Int) {y : Sql} {b : Int} (hy : eval d env y = .ok (.int b)) {idx : Sql}
+    (hidx : eval d env idx = .ok (.int (indexVal d (lengthOf d s) a))) :
+    ∃ l, lenSql e (.const a) idx (.expr y) = some l ∧ eval d env l = .ok (.int (lenVal d (lengthOf d s) false a b)) := by
+  rcases sign_dich a with ⟨h0, h0'⟩ | ⟨h0, h0'⟩ <;> rcases sign_dich b with ⟨h1, h1'⟩ | ⟨h1, h1'⟩ <;>
+    simp [lenSql, lenVal, maxz, eval, he, hy, hidx, lengthV, arithV, cmpV, condV, greatestV, bind, Except.bind, h0, h0', h1, h1'] <;> omega
+
+theorem eval_lenSql_ee (he : eval d env e = .ok (.str s)) {x : Sql} {a : Int} (hx : eval d env x = .ok (.int a))
+    {y : Sql} {b : Int} (hy : eval d env y = .ok (.int b)) {idx : Sql}
+    (hidx : eval d env idx = .ok (.int (indexVal d (lengthOf d s) a))) :
+    ∃ l, lenSql e (.expr x) idx (.expr y) = some l ∧ eval d env l = .ok (.int (lenVal d (lengthOf d s) false a b)) := by
+  rcases sign_dich a with ⟨h0, h0'⟩ | ⟨h0, h0'⟩ <;> rcases sign_dich b with ⟨h1, h1'⟩ | ⟨h1, h1'⟩ <;>
+    simp [lenSql, lenVal, maxz, eval, he, hx, hy, hidx, lengthV, arithV, cmpV, condV, andV, greatestV, bind, Except.bind, h0, h0', h1, h1'] <;> omega
+
+end evalLemmas
 end PonyVerif.Model.SqlStr
